@@ -545,3 +545,48 @@ def scaling_lemmas():
         v1 = ex.inline_scalar(fd, [x] + o + [mi / c for mi in m] + [g / c, h])
         out.append(prove_eq('%s:%s/lemma.rescale' % (oid, name), [c != 0], v1, v0 / c, func=CS.SHARED + '::' + name, timeout_ms=20000))
     return out
+
+
+# ---------------------------------------------------------------- C17: compiled bivariate lognormal density
+def verify_biv_lognormal():
+    """DFE/PDFs.c:biv_lognormal: output[i*m+j] = exp(-q/2) / (2 pi s1 s2 sqrt(1-rho^2) x_i y_j),
+       q = (dx^2 - 2 rho dx dy + dy^2)/(1-rho^2), dx = (log x_i - mu1)/s1, dy = (log y_j - mu2)/s2,
+       (mu1,mu2,s1,s2,rho) = (p0,p0,p1,p1,p2) for 3 parameters, (p0,p1,p2,p3,p4) for 5   - the documented reference density of PDFs.biv_lognormal_py."""
+    rel = 'dadi/DFE/PDFs.c'
+    oid = 'C17/PDFs.c:biv_lognormal'
+    fn = rel + '::biv_lognormal'
+    try:
+        ex = CExec([rel])
+        fd = ex.funcs['biv_lognormal'][1]
+        st0, lens = init_state(fd, shapes={'output': ['n', 'm']})
+        n, m, Np = st0.env['n'], st0.env['m'], st0.env['Nparams']
+        hyps = [n >= 1, m >= 1, lens['xx'] >= n, lens['yy'] >= m, lens['params'] >= Np, z3.Or(Np == 3, Np == 5)]
+        st = st0.fork()
+        st.pc = list(hyps)
+        outs = ex.exec_block(func_body(fd)['inner'], [st])
+        res = []
+        if len(outs) != 1:
+            return [R(oid, 'proof', 'undecided', detail='%d paths' % len(outs), func=fn)]
+        s = outs[0]
+        X, Y, P = CS.rd(st0, st0.env['xx']), CS.rd(st0, st0.env['yy']), CS.rd(st0, st0.env['params'])
+        out = s.arrs[st0.env['output'].aid]
+        i, j = z3.Ints('i!sk j!sk')
+        LOG, EXP, SQRT = CS.uf('log'), CS.uf('exp'), CS.uf('sqrt')
+        from fractions import Fraction
+        PI = z3.RealVal(Fraction(repr(3.14159265358979323846264338327950288)))
+        for Nv, (mu1, mu2, s1, s2, rho) in ((3, (P(0), P(0), P(1), P(1), P(2))), (5, (P(0), P(1), P(2), P(3), P(4)))):
+            h = hyps + list(s.pc) + [Np == Nv, i >= 0, i < n, j >= 0, j < m]
+            dxi = (LOG(X(i)) - mu1) / s1
+            dyj = (LOG(Y(j)) - mu2) / s2
+            q = (dxi * dxi - 2 * rho * dxi * dyj + dyj * dyj) / (1 - rho * rho)
+            want = EXP(-q / 2) / (2 * PI * s1 * s2 * SQRT(1 - rho * rho) * X(i) * Y(j))
+            got = _resolve(out.fn((i, j)), h)
+            res.append(prove_eq('%s/post.value.%dparams' % (oid, Nv), h + [s1 != 0, s2 != 0, rho * rho != 1, X(i) != 0, Y(j) != 0, SQRT(1 - rho * rho) != 0], got, want,
+                                func=fn, timeout_ms=30000))
+        # frame: entries outside [0,n)x[0,m) untouched
+        h = hyps + list(s.pc) + [z3.Or(i < 0, i >= n, j < 0, j >= m)]
+        res.append(prove(oid + '/frame', h, out.fn((i, j)) == st0.arrs[st0.env['output'].aid].fn((i, j)), func=fn, timeout_ms=20000))
+        res += bounds_obligs(oid, fn, ex, hyps)
+        return res
+    except CUnsupported as e:
+        return [R(oid, 'proof', 'undecided', detail='outside the C subset: %s' % e, func=fn)]
